@@ -411,6 +411,7 @@ def main():
                          "correspondence harness /verif/harness + driver + tools/*.py (differential testing, sampled)",
                          "Go toolchain, regexp/strconv/strings/sort as documented"],
         "theorems": pinfo["theorems"], "axioms_per_theorem": pinfo["axioms"],
+        "theorems_depending_on_native_decide": pinfo.get("native_dependent", []),
     })
     if coverage["discharged"] == 0:
         # the schema wants discharged >= 1 for a proof-level record; a run with nothing discharged is
